@@ -29,7 +29,7 @@
    implementation. *)
 From Coq Require Import List ZArith Bool Arith Lia.
 Import ListNotations.
-From QV Require Import Model.C01 Proofs.C01 Proofs.C01_pred Proofs.C01_add Proofs.C01_dia Proofs.C01_reshape Proofs.C01_kron Proofs.C01_matmul Proofs.C01_inner Proofs.C01_diacsr Proofs.C01_adddia Proofs.C01_matdia Proofs.C01_pow.
+From QV Require Import Model.C01 Proofs.C01 Proofs.C01_pred Proofs.C01_add Proofs.C01_dia Proofs.C01_reshape Proofs.C01_kron Proofs.C01_matmul Proofs.C01_inner Proofs.C01_diacsr Proofs.C01_adddia Proofs.C01_matdia Proofs.C01_pow Proofs.C01_expdata.
 
 Section Props.
 Variable C : Type.
@@ -849,23 +849,40 @@ Print Assumptions C01_expect_csr_ket.
 Print Assumptions C01_expect_csr_dm.
 Print Assumptions C01_expect_super_csr.
 
-(* The two known findings, on the models of the routes involved.
-   expect_data (used for mixed formats) evaluates a ket through
-   inner(state, op @ state) without scalar_is_ket: a 1x1 state is read as a
-   bra and not conjugated, while expect_csr (theorem above) conjugates it. *)
-Theorem C01_expect_data_scalar_ket_refuted :
-  exists op st : Gcsr, wf_csr G op /\ wf_csr G st /\
-    G_expect_via_inner op st <> G_expect_csr op st.
+(* expect_data (the specialisation serving mixed formats) evaluates a ket
+   through inner(state, op @ state, True): on exact payloads it returns the
+   same sum as expect_csr / expect_dense for EVERY ket, the 1x1 one included
+   (where scalar_is_ket makes inner conjugate the state). *)
+Theorem C01_expect_data_agrees_with_expect_csr :
+  forall (C : Type) (c0 c1 : C) (cadd cmul : C -> C -> C) (cconj : C -> C)
+         (is0 : C -> bool) (tidy : C -> C),
+  (forall x, cadd x c0 = x) -> (forall x, cadd c0 x = x) ->
+  (forall x y, cadd x y = cadd y x) ->
+  (forall x y z, cadd x (cadd y z) = cadd (cadd x y) z) ->
+  (forall x, cmul x c0 = c0) -> (forall x, cmul c0 x = c0) -> (forall x, cmul c1 x = x) ->
+  cconj c0 = c0 -> (forall x, is0 x = true <-> x = c0) -> (forall x, tidy x = x) ->
+  forall (op st : csr C) v v',
+  wf_csr C op -> wf_csr C st -> s_nc C st = 1 ->
+  expect_via_inner C c0 c1 cadd cmul cconj is0 tidy op st = Some v ->
+  expect_csr C c0 cadd cmul cconj op st = Some v' ->
+  v = v'.
 Proof.
-  exists (G_csr_of_raw 1 1 [0; 1] [0] [(2, 2)]%Z), (G_csr_of_raw 1 1 [0; 1] [0] [(-3, -2)]%Z).
-  split; [|split].
-  - split; [reflexivity|]. intros row [<-|[]]. split; [repeat constructor; intros []|].
-    intros p [<-|[]]. simpl. lia.
-  - split; [reflexivity|]. intros row [<-|[]]. split; [repeat constructor; intros []|].
-    intros p [<-|[]]. simpl. lia.
-  - vm_compute. intro H. discriminate H.
+  intros C c0 c1 cadd cmul cconj is0 tidy A0r A0l Ac Aa M0r M0l M1 K0 I0 T op st v v' Wop Wst Hnc H1 H2.
+  destruct (expect_via_inner_sum C c0 c1 cadd cmul cconj is0 tidy A0r A0l Ac Aa M0r M0l M1 K0 I0 T
+              op st v Wop Wst Hnc H1) as (_ & _ & E1).
+  rewrite E1. symmetry.
+  exact (expect_csr_ket C c0 cadd cmul cconj A0r A0l Ac Aa M0r M0l K0 op st v' Wop Wst Hnc H2).
 Qed.
-Print Assumptions C01_expect_data_scalar_ket_refuted.
+Print Assumptions C01_expect_data_agrees_with_expect_csr.
+
+(* the rule before the fix (no scalar_is_ket): a 1x1 state was read as a bra;
+   witness kept with the old_... definition *)
+Example C01_old_expect_data_witness :
+  let op := G_csr_of_raw 1 1 [0; 1] [0] [(2, 2)]%Z in
+  let st := G_csr_of_raw 1 1 [0; 1] [0] [(-3, -2)]%Z in
+  G_old_expect_via_inner op st = Some (-14, 34)%Z /\
+  G_expect_via_inner op st = Some (26, 26)%Z /\ G_expect_csr op st = Some (26, 26)%Z.
+Proof. vm_compute. repeat split; reflexivity. Qed.
 
 (* inner_op with a 1x1 left operand, a 1xN op and scalar_is_ket=True:
    inner_op_csr treats left as a bra (as documented); the Dense / Dia / Data
